@@ -350,7 +350,7 @@ CLAIMED = {
                 "file offset for every fill level of a 40-byte window (bounded); vsize from the file is recomputed "
                 "from the dimensions on every successful open path; begin_rec / begin_var are taken from the file's "
                 "own offsets (gaps honoured). Equality of all inquiry results and data with the encoded content is "
-                "NOT decided. No field of the header object that the decoder derives is read (by it or the functions it hands the object to) before the write that derives it (R4.decodeorder). The decode of the record count is required to recognise the specification's STREAMING word (R7.streaming; it does not: listed finding F-C04-1). The reader's record size is evaluated for lists of up to 3 variables against the format rule: packed for a single record variable, the sum of the padded lengths otherwise (R8.recsize).",
+                "NOT decided. No field of the header object that the decoder derives is read (by it or the functions it hands the object to) before the write that derives it (R4.decodeorder). The decode of the record count is required to recognise the specification's STREAMING word (R7.streaming; it does not: listed finding F-C04-1). The reader's record size is evaluated for lists of up to 3 variables against the format rule: packed for a single record variable, the sum of the padded lengths otherwise (R8.recsize). The pieces of a name that straddles read-window boundaries tile the name buffer (R8.namecopy, bounded).",
         "note": "The hint nc_header_read_chunk_size is inert in this snapshot (parsed into a local, never stored), so chunk "
                 "sizes other than the default are unreachable through the API; the rules are independent of the chunk size.",
         "design_ref": "DESIGN.md section 3 / C04, rules R7, R9a, R8.fetch",
@@ -373,7 +373,7 @@ CLAIMED = {
                 "file) is reached only with a positive count; a diff tool that reads numrecs from the headers compares the two "
                 "counts; record r of a variable is addressed at begin + r * (the file's record size) in the tools and the "
                 "library (7 sites). NOT decided: the validator's other semantic checks, ncmpidump/ncmpigen output, "
-                "tolerance arithmetic. The tools' private header decoders obey the same derive-before-read order (R4.decodeorder); cdfdiff's per-variable comparison of dimension lengths lets the record dimension stand for the number of records (R10.reccount); ncmpidiff counts floating-point values as different only when their bit patterns differ (R10.bitequal). Message buffers of ncvalidator and ncoffsets are bounded (R9.msgbuf).",
+                "tolerance arithmetic. The tools' private header decoders obey the same derive-before-read order (R4.decodeorder); cdfdiff's per-variable comparison of dimension lengths lets the record dimension stand for the number of records (R10.reccount); ncmpidiff counts floating-point values as different only when their bit patterns differ (R10.bitequal). Message buffers of ncvalidator and ncoffsets are bounded (R9.msgbuf). ncvalidator's per-variable length is the element size times the product of the non-record dimensions, rounded to 4 (R8.valshape, bounded).",
         "note": "Found and fixed: ncmpidiff had no NC_BYTE case in its three dispatches (F-C20-1..3); cdfdiff SIGFPE and "
                 "missing record-count comparison (F-C20-4, -5).",
         "design_ref": "DESIGN.md section 3 / C20",
